@@ -151,6 +151,92 @@ pub struct Wide24 {
 }
 proj_struct!(Wide24 { w00, w01, w02, w03, w04, w05, w06, w07, w08, w09, w10, w11, w12, w13, w14, w15, w16, w17, w18, w19, w20, w21, w22, w23 });
 
+/// brace-style variants without fields are struct-like bodies too (unknown keys must be reported)
+#[derive(Deserr, Debug)]
+#[deserr(tag = "type", deny_unknown_fields)]
+pub enum EmptyVariants {
+    Ping {},
+    Echo { msg: String },
+    Nop,
+    AllSkipped {
+        #[deserr(skip)]
+        hidden: u8,
+    },
+}
+proj_enum!(EmptyVariants { Ping {}, Echo { msg }, Nop, AllSkipped { hidden } });
+
+#[derive(Deserr, Debug)]
+#[deserr(tag = "type", deny_unknown_fields = vf::unknown_uk::<__Deserr_E>)]
+pub enum EmptyVariantsCustom {
+    Ping {},
+    Echo { msg: String },
+}
+proj_enum!(EmptyVariantsCustom { Ping {}, Echo { msg } });
+
+/// the tag key is written as given: the container's rename_all renames variants, never the tag
+#[derive(Deserr, Debug)]
+#[deserr(tag = "shape_kind", rename_all = camelCase)]
+pub enum TagCamelKey {
+    CircleShape { radius_len: u8 },
+    Dot,
+}
+proj_enum!(TagCamelKey { CircleShape { radius_len }, Dot });
+
+#[derive(Deserr, Debug)]
+#[deserr(tag = "Type", rename_all = lowercase)]
+pub enum TagLowerKey {
+    Big { Size: u8 },
+    Small,
+}
+proj_enum!(TagLowerKey { Big { Size }, Small });
+
+/// both variant attributes inside one `#[deserr(..)]`, in both orders, and split over two
+#[derive(Deserr, Debug)]
+#[deserr(tag = "t")]
+pub enum VariantBoth {
+    #[deserr(rename = "Pear", rename_all = camelCase)]
+    P { type_of_pear: u8 },
+    #[deserr(rename_all = lowercase, rename = "apple")]
+    A { Core_Size: u8 },
+    #[deserr(rename_all = camelCase)]
+    #[deserr(rename = "fig")]
+    F { seed_count: u8 },
+    #[deserr(rename = "QQ", rename_all = lowercase)]
+    Q,
+}
+proj_enum!(VariantBoth { P { type_of_pear }, A { Core_Size }, F { seed_count }, Q });
+
+/// a skipped field declared before mapped / renamed / defaulted fields of the same type
+#[derive(Deserr, Debug)]
+pub struct SkipThenAttrs {
+    #[deserr(skip)]
+    attempts: u8,
+    #[deserr(map = vf::inc_u8)]
+    priority: u8,
+    #[deserr(rename = "x")]
+    b: u8,
+    #[deserr(default = vf::dflt_u8())]
+    c: u8,
+    d: u8,
+}
+proj_struct!(SkipThenAttrs { attempts, priority, b, c, d });
+
+/// defaulted fields declared before required ones (tables indexed by "required fields only" go out of step)
+#[derive(Deserr, Debug)]
+#[deserr(rename_all = camelCase)]
+pub struct DefaultsFirst {
+    #[deserr(default)]
+    max_retries: u8,
+    display_name: String,
+    #[deserr(default = vf::dflt_u8())]
+    back_off: u8,
+    owner_id: u8,
+    #[deserr(missing_field_error = vf::missing_mf::<__Deserr_E>)]
+    custom_one: u8,
+    last_one: bool,
+}
+proj_struct!(DefaultsFirst { max_retries, display_name, back_off, owner_id, custom_one, last_one });
+
 // ---------------------------------------------------------------------------------- default / skip
 #[derive(Deserr, Debug)]
 pub struct Defaults {
@@ -611,6 +697,45 @@ pub fn defs() -> Defs {
     d.add(st(sdef("Lower", vec![f("userName", Ty::Str).key("username"), f("ID", u(8)).key("id"), f("other", Ty::Bool).key("KeepCase")])));
     d.add(st(sdef("RawIdent", vec![f("type", u(8)), f("match", Ty::Str), f("plain", Ty::Bool)])));
     d.add(st(StructDef { deny: Deny::Default, ..sdef("Wide24", vec![f("w00", u(8)), f("w01", u(8)), f("w02", u(8)), f("w03", u(8)).skip(pu(0)), f("w04", u(8)), f("w05", u(8)), f("w06", u(8)), f("w07", u(8)), f("w08", u(8)), f("w09", u(8)), f("w10", u(8)), f("w11", u(8)).skip(pu(0)), f("w12", u(8)), f("w13", u(8)), f("w14", u(8)), f("w15", u(8)), f("w16", u(8)), f("w17", u(8)).skip(pu(0)), f("w18", u(8)), f("w19", u(8)), f("w20", u(8)), f("w21", u(8)), f("w22", u(8)), f("w23", u(8))]) }));
+    d.add(Def::Enum(EnumDef {
+        deny: Deny::Default,
+        ..edef(
+            "EmptyVariants",
+            "type",
+            vec![vd("Ping", "Ping", Some(vec![])), vd("Echo", "Echo", Some(vec![f("msg", Ty::Str)])), vd("Nop", "Nop", None), vd("AllSkipped", "AllSkipped", Some(vec![f("hidden", u(8)).skip(pu(0))]))],
+        )
+    }));
+    d.add(Def::Enum(EnumDef {
+        deny: Deny::Custom("unknown_uk".into()),
+        ..edef("EmptyVariantsCustom", "type", vec![vd("Ping", "Ping", Some(vec![])), vd("Echo", "Echo", Some(vec![f("msg", Ty::Str)]))])
+    }));
+    d.add(Def::Enum(edef("TagCamelKey", "shape_kind", vec![vd("CircleShape", "circleShape", Some(vec![f("radius_len", u(8))])), vd("Dot", "dot", None)])));
+    d.add(Def::Enum(edef("TagLowerKey", "Type", vec![vd("Big", "big", Some(vec![f("Size", u(8))])), vd("Small", "small", None)])));
+    d.add(Def::Enum(edef(
+        "VariantBoth",
+        "t",
+        vec![
+            vd("P", "Pear", Some(vec![f("type_of_pear", u(8)).key("typeOfPear")])),
+            vd("A", "apple", Some(vec![f("Core_Size", u(8)).key("core_size")])),
+            vd("F", "fig", Some(vec![f("seed_count", u(8)).key("seedCount")])),
+            vd("Q", "QQ", None),
+        ],
+    )));
+    d.add(st(sdef(
+        "SkipThenAttrs",
+        vec![f("attempts", u(8)).skip(pu(0)), f("priority", u(8)).map("inc_u8"), f("b", u(8)).key("x"), f("c", u(8)).default(pu(42)), f("d", u(8))],
+    )));
+    d.add(st(sdef(
+        "DefaultsFirst",
+        vec![
+            f("max_retries", u(8)).key("maxRetries").default(pu(0)),
+            f("display_name", Ty::Str).key("displayName"),
+            f("back_off", u(8)).key("backOff").default(pu(42)),
+            f("owner_id", u(8)).key("ownerId"),
+            f("custom_one", u(8)).key("customOne").missing("missing_mf"),
+            f("last_one", Ty::Bool).key("lastOne"),
+        ],
+    )));
     d.add(st(sdef("LowerRaw", vec![f("type", u(8)), f("Other", Ty::Bool).key("other"), f("fn", opt(u(8)))])));
     d.add(st(sdef("CamelRaw", vec![f("match", u(8)), f("two_words", Ty::Bool).key("twoWords"), f("loop", opt(u(8))).key("r#loop")])));
     d.add(st(sdef(
@@ -867,6 +992,13 @@ pub fn registry() -> Registry {
     r.all::<Lower>("Lower", named("Lower"), &["derive", "rename"]);
     r.all::<RawIdent>("RawIdent", named("RawIdent"), &["derive", "rename", "raw-ident"]);
     r.all::<Wide24>("Wide24", named("Wide24"), &["derive", "deny", "skip", "wide"]);
+    r.all::<EmptyVariants>("EmptyVariants", named("EmptyVariants"), &["derive", "enum", "deny", "skip"]);
+    r.all::<EmptyVariantsCustom>("EmptyVariantsCustom", named("EmptyVariantsCustom"), &["derive", "enum", "deny", "custom-fn"]);
+    r.all::<TagCamelKey>("TagCamelKey", named("TagCamelKey"), &["derive", "enum", "rename"]);
+    r.all::<TagLowerKey>("TagLowerKey", named("TagLowerKey"), &["derive", "enum", "rename"]);
+    r.all::<VariantBoth>("VariantBoth", named("VariantBoth"), &["derive", "enum", "rename"]);
+    r.all::<SkipThenAttrs>("SkipThenAttrs", named("SkipThenAttrs"), &["derive", "skip", "conv", "rename", "default"]);
+    r.all::<DefaultsFirst>("DefaultsFirst", named("DefaultsFirst"), &["derive", "default", "rename", "custom-fn"]);
     r.all::<LowerRaw>("LowerRaw", named("LowerRaw"), &["derive", "rename", "raw-ident"]);
     r.all::<CamelRaw>("CamelRaw", named("CamelRaw"), &["derive", "rename", "raw-ident"]);
     r.all::<MissingRenamed>("MissingRenamed", named("MissingRenamed"), &["derive", "rename", "custom-fn"]);
